@@ -322,7 +322,8 @@ def diagnose(ctx, plugin, terms, tag):
         m = re.search(r'"@@%s"(?:%%string)?\s*,\s*(\[[^\]]*\]|nil)' % key, flat)
         if not m:
             raise RuntimeError("cannot parse diagnosis output\n" + out[-2000:])
-        res[key] = [int(x) for x in re.findall(r"(\d+)%N", m.group(1))]
+        # numbers print as 3%N, or bare 3 when an imported file left N_scope open
+        res[key] = [int(x) for x in re.findall(r"(\d+)(?:%\w+)?", m.group(1))]
     return res["MODEL"], res["SPEC"]
 
 
@@ -340,6 +341,9 @@ def check_batches(ctx, plugin, terms, shard_size):
             bm, bs = diagnose(ctx, plugin, [terms[i] for i in shards[k]], "b%d" % k)
         except RuntimeError as e:
             return k, False, None, None, str(e) + "\n" + out[-1500:]
+        if not bm and not bs:
+            # the lemma file failed but no case is blamed: never count that as success
+            return k, False, None, None, "batch lemma failed but diagnosis names no case\n" + out[-1500:]
         return k, False, [shards[k][i] for i in bm], [shards[k][i] for i in bs], out[-800:]
 
     n_ok, bad_model, bad_spec, errors = 0, [], [], []
